@@ -21,6 +21,10 @@ pub struct Case {
     /// deep-recursion template: `call self` executed this many times (0 = normal case)
     #[serde(default)]
     pub deep: u64,
+    /// a stack of a few slots only: calls run off its bottom, so runs end in a *refused call* (which is not
+    /// a call that happened) as well as in refused returns
+    #[serde(default)]
+    pub small_stack: bool,
 }
 
 pub struct C18;
@@ -65,11 +69,11 @@ impl Property for C18 {
     fn fixed_cases(&mut self, tier: Tier) -> Vec<Case> {
         let mut v = vec![];
         // returns that outnumber calls, then an error: the rendering path of step()'s error decoration
-        v.push(Case { prog: vec![PI::Ret, PI::Ret, PI::Ret, PI::Ret], seed: 1, preseed: vec![1, 2, 3], limit: 50, flags: 0, deep: 0 });
-        v.push(Case { prog: vec![PI::Ret, PI::Ret, PI::Jmp { to: 9, short: false }], seed: 2, preseed: vec![1, 2], limit: 50, flags: 0, deep: 0 });
+        v.push(Case { prog: vec![PI::Ret, PI::Ret, PI::Ret, PI::Ret], seed: 1, preseed: vec![1, 2, 3], limit: 50, flags: 0, deep: 0, small_stack: false });
+        v.push(Case { prog: vec![PI::Ret, PI::Ret, PI::Jmp { to: 9, short: false }], seed: 2, preseed: vec![1, 2], limit: 50, flags: 0, deep: 0, small_stack: false });
         // moderately deep recursion with rendering, and the i16 nesting-level boundary without rendering
-        v.push(Case { prog: vec![PI::Call { to: 0 }], seed: 3, preseed: vec![], limit: 600, flags: 0, deep: 600 });
-        v.push(Case { prog: vec![PI::Call { to: 0 }], seed: 4, preseed: vec![], limit: 33_500, flags: 0, deep: 33_500 });
+        v.push(Case { prog: vec![PI::Call { to: 0 }], seed: 3, preseed: vec![], limit: 600, flags: 0, deep: 600, small_stack: false });
+        v.push(Case { prog: vec![PI::Call { to: 0 }], seed: 4, preseed: vec![], limit: 33_500, flags: 0, deep: 33_500, small_stack: false });
         let _ = tier;
         v
     }
@@ -88,7 +92,8 @@ impl Property for C18 {
             let mut t = Tape::new(row);
             p.push(prog::gen_slot(&mut t, i, n, &o));
         }
-        Case { prog: p, seed, preseed, limit, flags, deep: 0 }
+        let small_stack = t.below(6) == 0;
+        Case { prog: p, seed, preseed, limit, flags, deep: 0, small_stack }
     }
 
     fn exec(&mut self, c: &Case) -> CaseOut {
@@ -113,7 +118,7 @@ impl Property for C18 {
                 ax.reg_write_64(sr, prog::slot_addr(BASE, (v >> 8) as usize % c.prog.len())).unwrap();
             }
         }
-        let stack_len = if c.deep > 0 { 8 * c.deep + 0x1000 } else { 0x1000 };
+        let stack_len = if c.deep > 0 { 8 * c.deep + 0x1000 } else if c.small_stack { 0x30 + 8 * c.preseed.len() as u64 } else { 0x1000 };
         if let Err(e) = ax.init_stack(stack_len) {
             return CaseOut::fail("HARNESS-FAULT|C18-stack".into(), e.to_string());
         }
@@ -271,6 +276,9 @@ impl Property for C18 {
         if repeats >= 2 {
             out = out.class("repeated-jump>=3x");
         }
+        if c.small_stack {
+            out = out.class("small-stack");
+        }
         if ended_in_error {
             out = out.class("ends-in-error");
         }
@@ -285,7 +293,7 @@ impl Property for C18 {
     }
 
     fn rule(&self) -> String {
-        "cases: slot-grid programs of 2–28 instructions weighted towards Jcc/JMP rel8|rel32, JMP/CALL through a register, CALL rel32, RET, JRCXZ and flag-setting ALU ops, with 0–5 pre-seeded return addresses (so unmatched RETs land in code), run ≤300 steps incl. runs that end in an error; fixed: RET chains that outnumber calls and then fail, recursion 600 deep with rendering, and 33 500 deep across the i16 level boundary; oracle: an independent tracer (own decoder, own condition table) builds the expected entries (source, target, kind, level, repeat count) and call stack, compared with the structured views after every step; trace(), call_stack() and to_string() must return after every step and after the final error (the layout of the text is not judged); non-trivial = ≥1 call, ≥1 taken and ≥1 untaken conditional branch; distinct by hash(case)".into()
+        "cases: slot-grid programs of 2–28 instructions weighted towards Jcc/JMP rel8|rel32, JMP/CALL through a register, CALL rel32, RET, JRCXZ and flag-setting ALU ops, with 0–5 pre-seeded return addresses (so unmatched RETs land in code), run ≤300 steps incl. runs that end in an error (1/6 on a stack of a few slots, so that calls are refused); fixed: RET chains that outnumber calls and then fail, recursion 600 deep with rendering, and 33 500 deep across the i16 level boundary; oracle: an independent tracer (own decoder, own condition table) builds the expected entries (source, target, kind, level, repeat count) and call stack, compared with the structured views after every step; trace(), call_stack() and to_string() must return after every step and after the final error (the layout of the text is not judged); non-trivial = ≥1 call, ≥1 taken and ≥1 untaken conditional branch; distinct by hash(case)".into()
     }
     fn required_classes(&self, _tier: Tier) -> Vec<String> {
         ["returns>calls", "repeated-jump>=3x", "ends-in-error", "call-and-return"].iter().map(|s| s.to_string()).collect()
